@@ -228,3 +228,34 @@ check("C21", "internal/accumulation",
       floors={"any": {"graphs_compared": 263000, "blocks_compared": 10000, "blocks_after_a_slot_gap": 3000, "blocks_after_a_gap_of_an_epoch_or_more": 1000, "blocks_releasing_queued_reports": 1000,
                       "blocks_with_gas_cut": 500, "blocks_with_in_block_dependency_order_checked": 1000}},
       exhaustive="all dependency graphs on 1..3 reports x all placements", assumptions=[STANDIN_VRF])
+
+
+CODEC_NOTE = ("Values are built by reflection over the repository's own types (harness/internal/zzverif/vgen) with the wire format's fixed lengths (V, C, E, Q, super-majority, bitfield, tickets-or-keys and work-result unions); "
+              "a generated value the encoder itself rejects is counted, not judged. The type list (121 named types of internal/types with both Encode and Decode) was taken from the tree when the harness was written. Tiny parameters; import specs are coded with an empty segment-root dictionary.")
+
+check("C11", "internal/zzverif/codec",
+      rule="case = one random value of one of the 121 serialisable types (sequence sizes 0..3, byte strings 0..300, boundary-biased integers, optional fields present/absent, dictionaries of 0..3 entries): encoded with a fresh encoder and 2-4 times with pooled encoders that just encoded something else (all encodings must be identical, which also exposes map-iteration-order dependence), "
+           "decoded (no error, consumed = length), compared with the original by deep equality modulo nil/empty; plus fuzz-protocol messages of all 7 kinds through MarshalBinary / ReadFrom / MarshalBinary. distinct_nontrivial = distinct encodings longer than one byte + distinct frames",
+      technique="round-trip and determinism monitor over reflection-generated values of every serialisable type and fuzz messages",
+      level_text="Identity oracle (decode . encode = id, encode deterministic) on generated values of every codec type; held = no failure on what was explored.",
+      note=CODEC_NOTE + " Concurrent use of the encoder pool is not exercised.",
+      shards=(8, 16), floors={"any": {"round_trips": 20000, "types_with_round_trips": 115, "round_trips_of_values_with_dictionaries": 1500, "message_round_trips": 1000}},
+      assumptions=[STANDIN_VRF])
+
+check("C13", "internal/zzverif/codec",
+      rule="case = one byte string: the encoding of a generated value of one of the 121 types, 6 mutants of it (truncation, bit flip, discriminator byte := {0,1,2,3,7F,80,FE,FF}, hostile or non-minimal natural number inserted/overwritten, garbage suffix, byte deleted, random window, early-position byte) and every proper prefix of every 10th encoding; "
+           "whenever the decoder accepts (DecodeWithConsumed = n), the decoded value must re-encode without error to exactly the n consumed bytes. distinct_nontrivial = distinct accepted byte strings",
+      technique="accept-implies-canonical monitor (re-encode every accepted mutant) over mutated encodings of every serialisable type",
+      level_text="Every accepted mutant of generated encodings is re-encoded and compared with the consumed bytes; held = every accepted string was the canonical encoding of its value on what was explored.",
+      note=CODEC_NOTE + " Trailing bytes after a complete value are the caller's concern (DecodeWithConsumed reports them); they are not judged.",
+      shards=(8, 16), floors={"any": {"accepted": 20000, "accepted_mutants": 3000, "rejected": 30000}},
+      assumptions=[STANDIN_VRF])
+
+check("C14", "internal/zzverif/codec",
+      rule="case = one untrusted byte string (the C13 corpus: valid encodings of the 121 types, 6 mutants each, all prefixes of every 10th) fed to the type's decoder, plus fuzz-protocol frames (valid, mutated, with the 32-bit length prefix set to 0, 1, 2, 2^20, 2^28, 2^31-1, 2^31, 2^32-1 or made consistent with the mutated payload) fed to Message.ReadFrom; "
+           "the input is logged to disk before each call; monitors: recover() / process death (child processes under an address-space limit), TotalAlloc delta <= 1 MiB + 4096 x input length. distinct_nontrivial = distinct inputs",
+      technique="crash and allocation monitors over mutated encodings and frames in isolated child processes (input logged before every call)",
+      level_text="Every decode of untrusted bytes is watched for Go panics, process death and allocation beyond a constant multiple of the input; held = none observed on what was explored.",
+      note=CODEC_NOTE + " The allocation constant (4096 bytes per input byte + 1 MiB) is far above the largest element struct; a decoder that allocates from a length prefix before reading exceeds it by orders of magnitude.",
+      shards=(8, 16), floors={"any": {"decodes_watched": 50000, "frames_watched": 10000, "frames_accepted": 1000}}, mem_gb=6,
+      assumptions=[STANDIN_VRF])
